@@ -289,7 +289,7 @@ fn encode(rng: &mut Rng, s: &Shape, rows: &[LVal]) -> Phys {
             }
             let mut offsets = vec![child.len()];
             let mut nulls = vec![];
-            let mut push_row = |rng: &mut Rng, r: &LVal, child: &mut Vec<LVal>, offsets: &mut Vec<usize>, nulls: &mut Vec<bool>| {
+            let push_row = |rng: &mut Rng, r: &LVal, child: &mut Vec<LVal>, offsets: &mut Vec<usize>, nulls: &mut Vec<bool>| {
                 match r {
                     LVal::List(items) => {
                         child.extend(items.iter().cloned());
@@ -344,10 +344,6 @@ fn encode(rng: &mut Rng, s: &Shape, rows: &[LVal]) -> Phys {
 // ------------------------------------------------------------------ Phys -> Arrow
 fn nullbuf(n: &Option<Vec<bool>>) -> Option<NullBuffer> {
     n.as_ref().map(|v| NullBuffer::new(BooleanBuffer::from(v.clone())))
-}
-
-fn leaf_tag(b: &Buf) -> i64 {
-    b.vals.first().map(|c| tag(*c)).unwrap_or(T_I32)
 }
 
 fn to_arrow(p: &Phys, s: &Shape) -> ArrayRef {
@@ -808,6 +804,28 @@ fn main() {
         "{{\"k\":\"combine\",\"pts\":[{}],\"ok\":true}}",
         pts.iter().map(|(l, r)| format!("[{},{},{}]", l, r, combine_hashes(*l, *r))).collect::<Vec<_>>().join(",")
     );
+    // the witness of Props/C12.v C12_encoded_values_null_refuted, replayed on the implementation:
+    // key columns (Int32 [NULL], Dictionary<Int32, Dictionary<Int32, Utf8>> [NULL]); the second column once as
+    // "key 0 -> inner key 0 -> inner value NULL" and once as "NULL key"
+    {
+        let rs = RandomState::with_seed(0x5eed_c12);
+        let b1 = |vals: Vec<i64>, nulls: Option<Vec<bool>>| Buf { vals, nulls, off: 0, len: 1 };
+        let shape = Shape::Dict(Box::new(Shape::Dict(Box::new(Shape::Leaf(T_UTF8)))));
+        let inner = || Phys::Dict(b1(vec![0], None), Box::new(Phys::Bytes(b1(vec![5002], Some(vec![false])))));
+        let c0 = to_arrow(&Phys::Prim(b1(vec![1005], Some(vec![false]))), &Shape::Leaf(T_I32));
+        let p = to_arrow(&Phys::Dict(b1(vec![0], None), Box::new(inner())), &shape);
+        let q = to_arrow(&Phys::Dict(b1(vec![0], Some(vec![false])), Box::new(inner())), &shape);
+        let hp = with_hashes([&c0, &p], &rs, |h| Ok(h.to_vec())).unwrap();
+        let hq = with_hashes([&c0, &q], &rs, |h| Ok(h.to_vec())).unwrap();
+        println!(
+            "{{\"k\":\"witness\",\"logical_p\":{},\"logical_q\":{},\"hashes_p\":{},\"hashes_q\":{},\"ok\":{}}}",
+            json_str(&format!("{:?}", fmt_rows(&p))),
+            json_str(&format!("{:?}", fmt_rows(&q))),
+            json_list(&hp),
+            json_list(&hq),
+            hp == hq
+        );
+    }
     let mut rng = Rng::new(seed);
     for id in 0..n {
         let exotic = if exotic_every > 0 && id % exotic_every == exotic_every - 1 { 1 + (id / exotic_every) % 3 } else { 0 };
